@@ -30,7 +30,7 @@ RULE = ("each run draws capacity 1-12, a refill rate from {0.005..50}/s, 1-5 pee
         "bound over the admitted history. distinct = distinct (config, decision-vector, eviction "
         "pattern) signatures; non-trivial = at least one refusal AND (an eviction or a concurrent "
         "burst or a second address) occurred")
-PROBES = ["cleanup_race_scenario", "eviction_happened", "refusal", "slow_refill_run", "concurrent_burst", "wire_mode",
+PROBES = ["config_from_toml", "cleanup_race_scenario", "eviction_happened", "refusal", "slow_refill_run", "concurrent_burst", "wire_mode",
           "idle_ge_600_with_partial_bucket"]
 COMPONENTS = {
     "real": ["nauyaca.server.middleware.RateLimiter/TokenBucket/MiddlewareChain",
@@ -70,7 +70,7 @@ class Model:
 
 
 def gaps_for(rate):
-    inv = 1.0 / rate
+    inv = 1.0 / rate if rate else 10.0
     g = [0.0, 1 / 64, 0.25, 1.0, inv, max(0.0, inv - 1 / 64), inv + 1 / 64, inv / 2, 5.0, 60.0,
          299.0, 300.0, 301.0, 599.0, 600.0, 601.0, 650.0, 900.0, 1250.0]
     w = [30, 8, 8, 8, 10, 4, 4, 4, 4, 3, 1, 2, 1, 2, 3, 3, 3, 2, 2]
@@ -82,6 +82,18 @@ def run_one(ch):
     cap = ch.int_in("cap", 1, 12)
     rate = RATES[ch.choose("rate", len(RATES))]
     retry = ch.pick("retry", [30, 1, 7, 120])
+    # the limiter's configuration as written in a TOML file, through ServerConfig
+    from_toml = ch.chance("from_toml", 0.2)
+    if from_toml:
+        z = ch.choose("zero", 5, [5, 1, 1, 1, 1])
+        if z == 1:
+            cap = 0            # "refuse everything"
+        elif z == 2:
+            rate = 0.0         # fixed quota, never refilled
+        elif z == 3:
+            retry = 0
+        elif z == 4:
+            cap = ch.pick("tomlcap", [1, 10, 11])
     naddr = 1 + ch.choose("naddr", 5, [4, 3, 2, 1, 1])
     nev = 5 + ch.choose("nev", 296, None)
     wire = ch.chance("wire", 0.3)
@@ -94,6 +106,19 @@ def run_one(ch):
         addrs[2] = "2001:db8::7"
 
     from nauyaca.server.middleware import MiddlewareChain, RateLimitConfig, RateLimiter
+
+    def make_config():
+        if not from_toml:
+            return RateLimitConfig(capacity=cap, refill_rate=rate, retry_after=retry)
+        import pathlib
+        from nauyaca.server.config import ServerConfig
+        from sim.world import fresh_dir
+        d = fresh_dir("c10")
+        path = pathlib.Path(d, "config.toml")
+        path.write_text(f'[server]\ndocument_root = "{d}"\n\n[rate_limit]\ncapacity = {cap}\n'
+                        f'refill_rate = {rate!r}\nretry_after = {retry}\n')
+        res.stats["config_from_toml"] += 1
+        return ServerConfig.from_toml(path).get_rate_limit_config()
 
     sim = Sim(ch)
     net = sim.net
@@ -137,7 +162,7 @@ def run_one(ch):
         decisions.append((t, ip, allow, response))
 
     async def direct():
-        rl = RateLimiter(RateLimitConfig(capacity=cap, refill_rate=rate, retry_after=retry))
+        rl = RateLimiter(make_config())
         rl_holder["rl"] = rl
         rl.start()
         known = set()
@@ -174,7 +199,7 @@ def run_one(ch):
         from nauyaca.server.protocol import GeminiServerProtocol
         from sim.net import raw_connect
         from sim.peers import RawPeer
-        rl = RateLimiter(RateLimitConfig(capacity=cap, refill_rate=rate, retry_after=retry))
+        rl = RateLimiter(make_config())
         rl_holder["rl"] = rl
         rl.start()
         order = []
@@ -269,7 +294,7 @@ def run_one(ch):
         """Requests that land exactly on a clean-up instant (k * 300 s) after more
         than one address has been idle long enough to be evicted: the clean-up
         pass and the burst are interleaved by the loop."""
-        rl = RateLimiter(RateLimitConfig(capacity=cap, refill_rate=rate, retry_after=retry))
+        rl = RateLimiter(make_config())
         rl_holder["rl"] = rl
         rl.start()
         loop = asyncio.get_running_loop()
@@ -283,7 +308,7 @@ def run_one(ch):
             for _ in range(1 + ch.choose("race.pre", cap)):
                 allow, resp = await rl.process_request("gemini://h.sim/", ip, None)
                 check_decision(net.now, ip, allow, resp)
-        full_at = net.now + cap / rate
+        full_at = net.now + (cap / rate if rate else 0.0)
         b = 300.0 * (int(max(net.now + 600.0, full_at) // 300.0) + 1 + ch.choose("race.skip", 2))
         fut = loop.create_future()
         loop.call_at(b, fut.set_result, None)
@@ -333,7 +358,7 @@ def run_one(ch):
         res.stats["eviction_happened"] += 1
     if refusals:
         res.stats["refusal"] += 1
-    if cap / rate > 600:
+    if rate and cap / rate > 600:
         res.stats["slow_refill_run"] += 1
     if st["burst"]:
         res.stats["concurrent_burst"] += 1
